@@ -30,7 +30,7 @@ CanonNoIf == <<"time", "sip", "dip", "dport", "proto", "pr", "ps", "br", "bs">>
 S1 == [id |-> "canon-iface-header", iface |-> TRUE, header |-> TRUE, cols |-> Canon]
 S2 == [id |-> "canon-noiface-option", iface |-> FALSE, header |-> FALSE, cols |-> CanonNoIf]
 S3 == [id |-> "perm-iface-option-extra", iface |-> TRUE, header |-> FALSE,
-       cols |-> <<"sip", "dip", "x", "dport", "proto", "iface", "br", "bs", "x", "pr", "ps", "time">>]
+       cols |-> <<"iface", "sip", "dip", "x", "dport", "proto", "br", "bs", "x", "pr", "ps", "time">>]   \* iface is column 0
 S4 == [id |-> "perm-noiface-header", iface |-> FALSE, header |-> TRUE,
        cols |-> <<"proto", "dport", "time", "dip", "sip", "bs", "br", "ps", "pr">>]
 S5 == [id |-> "goquery-output-header", iface |-> TRUE, header |-> TRUE,
